@@ -22,7 +22,10 @@ RULE = ("the malformed stream: every documented class of invalid input instantia
         "at a random position (label / observable size mismatches, a phased observable anywhere in the list, classical registers, three-qubit gates "
         "that span partitions or reach the search, unbound / unsupported instructions, budgets 0, 0.5, 0.999999, -3, NaN, mismatched argument forms, "
         "result counts and partition keys, width <= 0, gamma < 1, negative backjumps, map and half indices out of range, basis shape errors), mixed "
-        "with valid requests of the same shape; compared: error enum (ValueError / accepted) and, on refusal, deep snapshots of the arguments")
+        "with valid requests of the same shape; deterministic family (seed independent, oracle on every case): rxx/ryy/rzz/crx/cry/crz/cp whose angle still has a "
+        "free parameter in any form (bare Parameter, vector element, 2*t, t/2, -t, t+c, a+b, partially bound a+b, sin(t), t*t) handed to the basis / placeholder "
+        "constructors and, inside random circuits at a random position across two partitions, to partition_circuit_qubits, partition_problem, cut_gates, find_cuts, "
+        "next to the same requests with the expression fully bound; compared: error enum (ValueError / accepted) and, on refusal, deep snapshots of the arguments")
 ASSUMPTIONS = ["'without modifying the arguments' is a runtime statement: checked by deep snapshots before/after every refused call",
                "partition / search / decomposition refusals reuse the models of C10, C07, C02, C13, C17 (delegated cases)"]
 
@@ -59,7 +62,79 @@ def _valid_problem(rng):
             "obs": obs, "bases": [], "cregs": []}
 
 
+PARAM_GATES = ["rxx", "ryy", "rzz", "crx", "cry", "crz", "cp"]
+UNBOUND_EXPRS = ["t", "v[1]", "2*t", "t/2", "-t", "t+0.25", "a+b", "a+b|a", "sin(t)", "t*t"]
+BOUND_EXPRS = ["a+2*b|a,b", "2*t|t", "sin(t)|t"]
+ANGLE_ENTRIES = ["partition_circuit_qubits", "partition_problem", "cut_gates", "find_cuts"]
+
+
+def _angle(desc):
+    """An angle given as an expression; "|a,b" binds the named parameters (a=0.3, b=-0.55, t=0.4).  Returns (angle, value or None)."""
+    from qiskit.circuit import Parameter, ParameterVector
+    t, a, b = Parameter("t"), Parameter("a"), Parameter("b")
+    v = ParameterVector("v", 3)
+    vals = {"t": (t, 0.4), "a": (a, 0.3), "b": (b, -0.55)}
+    body, _, bind = desc.partition("|")
+    e = {"t": t, "v[1]": v[1], "2*t": 2 * t, "t/2": t / 2, "-t": -t, "t+0.25": t + 0.25, "a+b": a + b, "a+2*b": a + 2 * b,
+         "sin(t)": t.sin(), "t*t": t * t}[body]
+    if bind:
+        e = e.bind({vals[n][0]: vals[n][1] for n in bind.split(",")})
+    value = None
+    if not e.parameters:
+        value = {"a+2*b": 0.3 + 2 * -0.55, "2*t": 0.8, "sin(t)": math.sin(0.4)}[body]
+    return e, value
+
+
+def _family_unbound_angles():
+    """Every parametrised two-qubit gate with an angle that still contains a free parameter, in every form an angle can take, through
+    every public entry point that has to decompose it -- and the same requests once the expression is fully bound."""
+    import random
+    rng = random.Random(180918)
+
+    def circuit_case(gate, expr, entry, bound):
+        nq = rng.choice([4, 5])
+        half = nq // 2
+        q = [rng.randrange(0, half), rng.randrange(half, nq)]
+        if rng.random() < 0.5:
+            q.reverse()
+        ctx = []
+        for _ in range(5):
+            k = rng.randrange(4)
+            if k == 0:
+                ctx.append({"name": "h", "qubits": [rng.randrange(nq)]})
+            elif k == 1:
+                ctx.append({"name": "rx", "qubits": [rng.randrange(nq)], "params": [rng.choice([0.5, -1.25, 2.0])]})
+            elif k == 2:
+                ctx.append({"name": "cx", "qubits": rng.sample(range(nq), 2)})
+            else:
+                ctx.append({"name": "rzz", "qubits": rng.sample(range(nq), 2), "params": [rng.choice([0.75, -0.5])]})
+        return ("validate", {"what": "unbound_angle", "gate": gate, "expr": expr, "bound": bound, "entry": entry, "nq": nq, "q": q,
+                             "pos": rng.randint(0, len(ctx)), "ctx": ctx, "labels": [0] * half + [1] * (nq - half),
+                             "obs": ["Z" * nq, "X" * nq, "I" * (nq - 1) + "Y"], "always_oracle": True})
+    for gate in PARAM_GATES:
+        for expr in UNBOUND_EXPRS:
+            yield ("validate", {"what": "unbound_angle", "gate": gate, "expr": expr, "bound": False, "entry": "basis", "always_oracle": True})
+    k = 0
+    for gate in PARAM_GATES:
+        for _ in range(3):
+            yield ("validate", {"what": "unbound_angle", "gate": gate, "expr": UNBOUND_EXPRS[k % len(UNBOUND_EXPRS)], "bound": False, "entry": "qpdgate",
+                                "always_oracle": True})
+            k += 1
+    for entry in ANGLE_ENTRIES:
+        for gate in PARAM_GATES:
+            for _ in range(2):
+                yield circuit_case(gate, UNBOUND_EXPRS[k % len(UNBOUND_EXPRS)], entry, False)
+                k += 1
+    for i, gate in enumerate(PARAM_GATES):
+        yield ("validate", {"what": "unbound_angle", "gate": gate, "expr": BOUND_EXPRS[i % 3], "bound": True, "entry": ("basis", "qpdgate")[i % 2],
+                            "always_oracle": True})
+    for i, entry in enumerate(ANGLE_ENTRIES):
+        for j in range(2):
+            yield circuit_case(PARAM_GATES[(2 * i + j) % 7], BOUND_EXPRS[(i + j) % 3], entry, True)
+
+
 def cases(rng, tier):
+    yield from _family_unbound_angles()
     N = 40 if tier == "quick" else 400
     # partition keys of results and observables: strict superset, strict subset, renamed, equal (in any order)
     for ko, kr in (([0, 1], [0, 1, 9]), ([0, 1, 2], [0, 1]), ([0, 1], [0, 7]), ([2, 0, 1], [1, 2, 0]), ([0], [0, 3]), ([0, 4], [4])):
@@ -197,6 +272,11 @@ def model_line(kind, payload):
         return {"op": "c18.two_qubit_gate", "basis_qubits": payload["basis_qubits"]}
     if w == "unset_basis_id":
         return {"op": "c18.unset_basis_id", "id": payload["id"]}
+    if w == "unbound_angle":
+        # the model of the decompositions (C02) knows the seven families at a numeric angle only; anything else is "unsupported" and refused
+        if payload["bound"]:
+            return c02.model_line("gate", {"gate": payload["gate"], "params": [_angle(payload["expr"])[1]]})
+        return {"op": "c02.basis", "gate": "unsupported:" + payload["gate"] + "(" + payload["expr"] + ")", "env": [1.0, 0.0, math.sqrt(0.5)]}
     if w == "no_classical":
         return {"op": "c18.no_classical", "nregs": 1 if payload["nregbits"] else 0, "nbits": payload["nregbits"] + payload["nloose"]}
     return {"op": "c18.basis", "arities": payload["arities"], "ncoeffs": payload["ncoeffs"]}
@@ -314,6 +394,52 @@ def run_real(kind, payload):
             decompose_qpd_instructions(qc, [[0]], map_ids=None)
         except ValueError:
             if json.dumps(canon.snapshot(qc), sort_keys=True, default=str) != before:
+                return {"error": "ValueError", "mutated": True}
+            raise
+        return {"ok": "accepted"}
+    if w == "unbound_angle":
+        from qiskit.circuit import QuantumCircuit
+        from qiskit.quantum_info import PauliList
+        from qiskit_addon_cutting.qpd import QPDBasis, TwoQubitQPDGate
+        angle, _ = _angle(payload["expr"])
+        gate = canon._lib()[payload["gate"]](angle)
+        entry = payload["entry"]
+        qc = labels = obs = bad = None
+        if entry not in ("basis", "qpdgate"):
+            qc = QuantumCircuit(payload["nq"])
+            ctx = list(payload["ctx"])
+            for i in range(len(ctx) + 1):
+                if i == payload["pos"]:
+                    bad = len(qc.data)
+                    qc.append(gate, payload["q"])
+                if i < len(ctx):
+                    qc.append(canon.mk_op(ctx[i]["name"], ctx[i].get("params", ())), ctx[i]["qubits"])
+            labels = list(payload["labels"])
+            obs = PauliList(payload["obs"])
+
+        def snap():
+            return (repr(gate.params), None if qc is None else json.dumps(canon.snapshot(qc), sort_keys=True, default=str), repr(labels),
+                    None if obs is None else obs.to_labels())
+        before = snap()
+        try:
+            if entry == "basis":
+                QPDBasis.from_instruction(gate)
+            elif entry == "qpdgate":
+                TwoQubitQPDGate.from_instruction(gate)
+            elif entry == "partition_circuit_qubits":
+                from qiskit_addon_cutting import partition_circuit_qubits
+                partition_circuit_qubits(qc, labels)
+            elif entry == "partition_problem":
+                from qiskit_addon_cutting import partition_problem
+                partition_problem(qc, labels, observables=obs)
+            elif entry == "cut_gates":
+                from qiskit_addon_cutting import cut_gates
+                cut_gates(qc, [bad])
+            else:
+                from qiskit_addon_cutting import find_cuts, OptimizationParameters, DeviceConstraints
+                find_cuts(qc, OptimizationParameters(seed=1), DeviceConstraints(qubits_per_subcircuit=payload["nq"] // 2 + 1))
+        except ValueError:
+            if snap() != before:
                 return {"error": "ValueError", "mutated": True}
             raise
         return {"ok": "accepted"}
@@ -436,6 +562,8 @@ def _expected_invalid(kind, payload):
         return payload["basis_qubits"] != 2
     if w == "unset_basis_id":
         return payload["id"] is None
+    if w == "unbound_angle":
+        return not payload["bound"]
     if w == "no_classical":
         return payload["nregbits"] + payload["nloose"] > 0
     ar = payload["arities"]
@@ -452,6 +580,10 @@ def oracle(kind, payload):
     if exp:
         if real.get("error") == "ValueError":
             return None
+        if kind == "validate" and payload.get("what") == "unbound_angle":
+            return (f"{payload['gate']}({payload['expr']}), an angle with a free parameter, handed to {payload['entry']}"
+                    + (f" (on qubits {payload['q']} at position {payload['pos']} of a {payload['nq']}-qubit circuit)" if "q" in payload else "")
+                    + f" was not refused with ValueError: {str(real)[:160]}")
         return f"documented invalid input ({describe(kind, payload)['class']}) was not refused with ValueError: {str(real)[:160]}"
     if "error" in real:
         return f"valid input ({describe(kind, payload)['class']}) raised {real['error']}"
